@@ -34,4 +34,4 @@ def obligations(ctx: Ctx):
         Ob(f"{P}.R2.inverse", "R", "unescape(escape(v)) == v for every string", LX.FUNCS_EMIT + LX.FUNCS_LEX, partial(LX.ob_escape_inverse, oid=f"{P}.R2")),
         Ob(f"{P}.B1", "B", "exhaustive short strings / numbers x positions x keys through the real emit + strict parse", ["octave_mcp.core.emitter:emit", "octave_mcp.core.parser:parse"], C04_b.ob_b1, timeout=3000),
         Ob(f"{P}.R2.nfc", "R", "emitted scalar text is stable under the reader's NFC pass", LX.FUNCS_EMIT + LX.FUNCS_LEX, partial(LX.ob_nfc_stable, oid=f"{P}.R2")),
-    ]
+    ] + LX.parse_scalar_obs(P)
